@@ -23,13 +23,14 @@ FOUND = []
 STATE = {}
 
 
-def ref_expr(I, names, c, written, rel):
+def ref_expr(I, names, c, written, rel, finodes=None):
     return "(resolve_str %s %s (indirect_parts %s %s))" % (
-        c_names(I, c["names"]), c_ctx(I, c), c_parts(I, written.split(".")), H.c_relation(I, names, rel))
+        c_names(I, c["names"]), c_ctx(I, c, finodes), c_parts(I, written.split(".")), H.c_relation(I, names, rel))
 
 
 def ref_cases(ctx, I, spec, names, builder, text, rcases, rmetas):
     refs = H.put_refs(spec)
+    finodes = H.spec_framer_inodes(I, spec, names)     # framer inodes as the SCRIPT prescribes them
     for marker, lst in sorted(H.all_destinations(builder, names).items()):
         if marker not in refs:
             continue
@@ -40,7 +41,7 @@ def ref_cases(ctx, I, spec, names, builder, text, rcases, rmetas):
                 continue
             ctx.case({"reference": written, "relation": rel, "framer": c["names"]["framer"], "share": dest},
                      nontrivial=rel is not None or not written.startswith("."), kind="reference")
-            rcases.append((ref_expr(I, names, c, written, rel), "(Ok %s)" % c_parts(I, dest.split("."))))
+            rcases.append((ref_expr(I, names, c, written, rel, finodes), "(Ok %s)" % c_parts(I, dest.split("."))))
             rmetas.append({"program": text, "marker": marker, "written": written, "relation": rel,
                            "framer": c["names"]["framer"], "share": dest, "spec": spec, "names": names})
 
@@ -49,13 +50,21 @@ def c_parts(I, ps):
     return clist([str(I(p)) for p in ps], "N")
 
 
-def c_ctx(I, c):
+def c_ctx(I, c, finodes=None):
+    """finodes: live framer name -> Coq expression of the inode the SCRIPT prescribes (harness.spec_framer_inodes);
+    when given it replaces the inode read from the live framer objects"""
     ai = "None" if c["act_inode"] is None else "(Some %s)" % c_parts(I, c["act_inode"])
     overs = clist([c_parts(I, o) for o in c["overs"]], "(list N)")
-    levels = clist(["(%s, %s)" % (clist([c_parts(I, o) for o in ch], "(list N)"), c_parts(I, mi))
-                    for ch, mi in c["levels"]], "(list (list N) * list N)")
+    chain = c.get("framer_chain", [])
+
+    def fin(k, live):
+        if finodes is not None and k < len(chain) and chain[k] in finodes:
+            return finodes[chain[k]]
+        return c_parts(I, live)
+    levels = clist(["(%s, %s)" % (clist([c_parts(I, o) for o in ch], "(list N)"), fin(k + 1, mi))
+                    for k, (ch, mi) in enumerate(c["levels"])], "(list (list N) * list N)")
     return "(mkctx %s %s %s %s %s %s %s)" % (cbool(c["has_main"]), cbool(c["actor_ok"]), ai,
-                                             c_parts(I, c["frame_inode"]), overs, c_parts(I, c["framer_inode"]), levels)
+                                             c_parts(I, c["frame_inode"]), overs, fin(0, c["framer_inode"]), levels)
 
 
 def c_names(I, n):
@@ -275,7 +284,8 @@ def rename_witness(ctx, m):
             if c is None or (c["names"]["framer"] != m["framer"] and ent is None):
                 continue
             runs.append((ent, (names[ent], new) if ent else None, dest))
-            exprs.append("match norm %s with Ok l => l | _ => [999] end" % ref_expr(I, n2, c, written, rel))
+            exprs.append("match norm %s with Ok l => l | _ => [999] end" % ref_expr(
+                I, n2, c, written, rel, H.spec_framer_inodes(I, spec, n2)))
             break
     outs = ctx.coq_eval(STATE["rheader"], exprs, name="witness")
     inv = {v: k for k, v in I.ids.items()}
